@@ -135,6 +135,12 @@ func instrProtected(defs []*ssa.Defer, b *ssa.BasicBlock, idx int) bool {
 // non-*Error value constructed here), "notError" (re-panic of a recovered value on the branch where
 // the assertion to *Error failed), "unknown" (an interface value of unknown content).
 func (w *World) panicKind(p *ssa.Panic) string {
+	// the checks the compiler puts around a range-over-func loop (the iterator called yield after the loop was left, or
+	// re-entered it): not statements of the program, and not reachable with the standard library's iterators
+	// (slices.Backward, maps.Keys, …); the module's own iterators are C17/R2's subject
+	if c := p.Block().Comment; !p.Pos().IsValid() && (c == "yield-invalid" || strings.HasPrefix(c, "rangefunc.")) {
+		return "rangefunc"
+	}
 	if mi, ok := p.X.(*ssa.MakeInterface); ok {
 		if w.isErrorPtr(mi.X.Type()) {
 			return "error"
